@@ -186,6 +186,17 @@ pub fn gen_pcm(kind: &str, rng: &mut Rng, channels: usize, bps: u32, frames: usi
                     let period = 37.0 + 23.0 * c as f64 + (cval[c].rem_euclid(97)) as f64;
                     ((i as f64 / period * std::f64::consts::TAU).sin() * gain * hi as f64).round().clamp(lo as f64, hi as f64) as i64
                 }
+                // "railglitch": a quiet smooth signal with, every 97 frames, three samples 0.6 x full scale, full scale, -0.9 x full scale: a
+                // linear predictor fitted to the quiet part is off by more than the whole range of a sample there
+                "railglitch" => {
+                    let base = ((i as f64 * (0.05 + 0.01 * c as f64)).sin() * (hi as f64 / 2048.0)) as i64;
+                    match i % 97 {
+                        50 => hi * 6 / 10,
+                        51 => hi,
+                        52 => -(hi * 9 / 10),
+                        _ => base,
+                    }
+                }
                 "burst" => if i % 16 >= 12 { rng.range(lo / 2, hi / 2) } else { rng.range(-1.max(lo), 1.min(hi)) },
                 "small" => rng.range(-3.max(lo), 3.min(hi)),
                 "sine" => {
